@@ -45,6 +45,75 @@ type c02slot struct {
 // c02Build builds an honest list for the slots (fresh builders each call).
 func c02Build(jr *rand.Rand, slots []*c02slot, secret *big.Int, issig bool, shape string) (*session, error) {
 	ctx, nonce := freshNonces(jr)
+	builders, pks, err := c02Builders(jr, slots, secret, ctx)
+	if err != nil {
+		return nil, err
+	}
+	list, err := builders.BuildProofList(ctx, nonce, issig)
+	if err != nil {
+		return nil, err
+	}
+	return &session{list: list, pks: pks, ctx: ctx, nonce: nonce, issig: issig, shape: shape}, nil
+}
+
+// replayBuilder stands for a proof recorded in another session: it contributes that proof's own challenge
+// contributions to the new session's challenge and "responds" with the recorded proof unchanged. A holder who builds
+// the other members honestly around it obtains a list whose challenge really covers the recorded proof.
+type replayBuilder struct {
+	proof gabi.Proof
+	pk    *gabikeys.PublicKey
+}
+
+func (b *replayBuilder) Commit(map[string]*big.Int) ([]*big.Int, error) {
+	return b.proof.ChallengeContribution(b.pk)
+}
+func (b *replayBuilder) CreateProof(*big.Int) gabi.Proof            { return b.proof }
+func (b *replayBuilder) PublicKey() *gabikeys.PublicKey             { return b.pk }
+func (b *replayBuilder) SetProofPCommitment(*gabi.ProofPCommitment) {}
+
+// c02Adaptive builds fresh lists in a third session in which one member is a proof recorded in session rec.
+func c02Adaptive(r *mon.Run, jr *rand.Rand, slots []*c02slot, secret *big.Int, rec *session) {
+	n := len(slots)
+	for pos := 0; pos <= n; pos++ {
+		for from := 0; from < n; from++ {
+			if pos < n && from != pos && jr.IntN(3) != 0 {
+				continue
+			}
+			for _, issig := range []bool{rec.issig, !rec.issig} {
+				ctx, nonce := freshNonces(jr)
+				builders, pks, err := c02Builders(jr, slots, secret, ctx)
+				if err != nil {
+					r.Eval("adaptive-splice", "error")
+					continue
+				}
+				rb := &replayBuilder{proof: cloneList(gabi.ProofList{rec.list[from]})[0], pk: rec.pks[from]}
+				desc := fmt.Sprintf("member %d of a recorded session placed at position %d", from, pos)
+				if pos == n {
+					builders, pks = append(builders, rb), append(pks, rec.pks[from])
+					desc = fmt.Sprintf("member %d of a recorded session appended", from)
+				} else {
+					builders[pos], pks[pos] = rb, rec.pks[from]
+				}
+				var list gabi.ProofList
+				pvb, _ := mon.Try(func() { list, err = builders.BuildProofList(ctx, nonce, issig) })
+				if pvb != nil || err != nil {
+					r.Eval("adaptive-splice", "error")
+					continue
+				}
+				r.Distinct(rec.shape, "adaptive-splice", desc, issig)
+				ok, pv, _ := verifyList(cloneList(list), pks, ctx, nonce, issig, nil)
+				r.Eval("adaptive-splice", outcome(ok, pv))
+				if ok {
+					r.Violation("C02/recorded-proof-accepted-in-new-session", fmt.Sprintf("a list built around a proof recorded in another session verifies (%s, issig=%v; %s)", desc, issig, rec.shape),
+						map[string]any{"shape": rec.shape, "desc": desc, "list": dumpList(list), "context": dumpInt(ctx), "nonce": dumpInt(nonce), "issig": issig,
+							"recorded_context": dumpInt(rec.ctx), "recorded_nonce": dumpInt(rec.nonce)})
+				}
+			}
+		}
+	}
+}
+
+func c02Builders(jr *rand.Rand, slots []*c02slot, secret, ctx *big.Int) (gabi.ProofBuilderList, []*gabikeys.PublicKey, error) {
 	var builders gabi.ProofBuilderList
 	var pks []*gabikeys.PublicKey
 	for _, s := range slots {
@@ -52,7 +121,7 @@ func c02Build(jr *rand.Rand, slots []*c02slot, secret *big.Int, issig bool, shap
 		if s.issuance {
 			b, err := gabi.NewCredentialBuilder(s.key.PK, ctx, secret, randBig(jr, 80), nil, nil)
 			if err != nil {
-				return nil, err
+				return nil, nil, err
 			}
 			builders = append(builders, b)
 			continue
@@ -61,21 +130,17 @@ func c02Build(jr *rand.Rand, slots []*c02slot, secret *big.Int, issig bool, shap
 		if s.rng {
 			st, err := rangeproof.NewStatement(rangeproof.GreaterOrEqual, bi(18))
 			if err != nil {
-				return nil, err
+				return nil, nil, err
 			}
 			stm = map[int][]*rangeproof.Statement{2: {st}}
 		}
 		b, err := s.cred.C.CreateDisclosureProofBuilder([]int{1}, stm, s.nonrev)
 		if err != nil {
-			return nil, err
+			return nil, nil, err
 		}
 		builders = append(builders, b)
 	}
-	list, err := builders.BuildProofList(ctx, nonce, issig)
-	if err != nil {
-		return nil, err
-	}
-	return &session{list: list, pks: pks, ctx: ctx, nonce: nonce, issig: issig, shape: shape}, nil
+	return builders, pks, nil
 }
 
 func runC02(r *mon.Run) {
@@ -150,10 +215,11 @@ func runC02(r *mon.Run) {
 			return
 		}
 		c02Session(r, jr, s1, s2)
+		c02Adaptive(r, jr, slots, secret, s2)
 	})
 	r.FloorAccept("honest", 8)
 	r.FloorAccept("honest-json", 8)
-	for _, f := range []string{"context", "nonce", "issig", "sublist", "member-alone"} {
+	for _, f := range []string{"context", "nonce", "issig", "sublist", "member-alone", "adaptive-splice"} {
 		r.FloorFam(f, 8)
 	}
 	if r.Pick(3, 4) >= 2 {
